@@ -188,6 +188,18 @@ func c20R1345(c *Ctx) {
 	why := idxD
 	if b, ok := idxV.(*ssa.BinOp); ok && b.Op.String() == "+" {
 		if k, ok := b.Y.(*ssa.Const); ok && k.Int64() == 1 {
+			// max(getLastIndex(), meta.Index) spelled with the package's max
+			// helper (its body is checked over the three orderings by C05) or
+			// with the builtin
+			if call, ok := b.X.(*ssa.Call); ok {
+				n := c.P.CalleeName(call.Common())
+				if (n == "max" || n == "builtin:max") && len(call.Call.Args) == 2 {
+					a0, a1 := c.P.D(call.Call.Args[0]), c.P.D(call.Call.Args[1])
+					if (a0 == "p1.Index" && a1 == "recv.raftState.getLastIndex()") || (a1 == "p1.Index" && a0 == "recv.raftState.getLastIndex()") {
+						okBurn = true
+					}
+				}
+			}
 			if ph, ok := b.X.(*ssa.Phi); ok && len(ph.Edges) == 2 {
 				rr := c.Run(&engine.Automaton{Fn: fn, Tracks: []engine.Track{engine.PredRel("snapAhead", "p1.Index", "recv.raftState.getLastIndex()", engine.GT)}})
 				okBurn = true
